@@ -698,4 +698,91 @@ theorem impl_eq_rfc_header_with_endpoint_check (n : Nat) (b : List Nat) (hb : By
           rw [if_neg (by unfold maxDcidLen; omega), if_neg (by unfold maxScidLen; omega)]
       rw [hsame]
 
+/-! ### the two deviations are real (witnesses replayed on the real decoder by `./check C05`:
+    `dec 0 c000000001 15 07×21 00 00 02 0909` and `dec 0 8000000000 15 07×21 00 00000001`) -/
+
+/-- a version-1 Initial packet with a 21-byte Destination Connection ID -/
+def witnessInitialLongCid : List Nat := [0xc0, 0, 0, 0, 1, 21] ++ List.replicate 21 7 ++ [0, 0, 2, 9, 9]
+/-- a Version Negotiation packet with a 21-byte Destination Connection ID and one supported version -/
+def witnessVnLongCid : List Nat := [0x80, 0, 0, 0, 0, 21] ++ List.replicate 21 7 ++ [0, 0, 0, 0, 1]
+
+/-- the full-strength `impl_eq_rfc_header` is FALSE: the code accepts a version-1 Initial packet whose
+    DCID is 21 bytes long, RFC 9000 §17.2 says it MUST be dropped -/
+theorem impl_eq_rfc_header_counterexample_initial :
+    BytesOk witnessInitialLongCid ∧ KnownVersion witnessInitialLongCid ∧
+    decodePacket 0 witnessInitialLongCid = .ok (.initial 1 (List.replicate 21 7) [] [] 30 32, []) ∧
+    parsePacket 0 witnessInitialLongCid = none ∧
+    abs (decodePacket 0 witnessInitialLongCid) ≠ parsePacket 0 witnessInitialLongCid := by
+  refine ⟨bytesOk_of_all _ (by decide), ?_, by rfl, by decide, by decide⟩
+  intro v hv
+  have : versionField witnessInitialLongCid = some 1 := by decide
+  rw [this] at hv
+  simp only [Option.some.injEq] at hv
+  omega
+
+/-- … and it rejects a Version Negotiation packet with a 21-byte connection ID, which Figure 14
+    (Destination Connection ID (0..2040)) allows -/
+theorem impl_eq_rfc_header_counterexample_vn :
+    BytesOk witnessVnLongCid ∧ KnownVersion witnessVnLongCid ∧
+    decodePacket 0 witnessVnLongCid = .error .dcidLen ∧
+    parsePacket 0 witnessVnLongCid = some (.versionNegotiation 0 (List.replicate 21 7) [] [1], []) ∧
+    abs (decodePacket 0 witnessVnLongCid) ≠ parsePacket 0 witnessVnLongCid := by
+  refine ⟨bytesOk_of_all _ (by decide), ?_, by rfl, by decide, by decide⟩
+  intro v hv
+  have : versionField witnessVnLongCid = some 0 := by decide
+  rw [this] at hv
+  simp only [Option.some.injEq] at hv
+  omega
+
+/-- the full-strength `cid_len_le_20_enforced` is FALSE at decode time for Initial packets -/
+theorem cid_len_le_20_initial_counterexample :
+    ∃ b p rest, BytesOk b ∧ decodePacket 0 b = .ok (p, rest) ∧ p.version? = some 1 ∧ 20 < p.dcid.length :=
+  ⟨witnessInitialLongCid, .initial 1 (List.replicate 21 7) [] [] 30 32, [], bytesOk_of_all _ (by decide), by rfl, rfl,
+    by decide⟩
+
+/-- both witnesses are exactly the inputs excluded by `CidDeviation` -/
+theorem witnesses_are_deviations : CidDeviation witnessInitialLongCid ∧ CidDeviation witnessVnLongCid :=
+  ⟨⟨0xc0, 1, List.replicate 21 7, [], [0, 2, 9, 9], by decide, Or.inl (by decide), Or.inr ⟨rfl, by decide⟩⟩,
+   ⟨0x80, 0, List.replicate 21 7, [], [0, 0, 0, 1], by decide, Or.inl (by decide), Or.inl rfl⟩⟩
+
+/-! ### non-vacuity: concrete inputs satisfying the hypotheses of the theorems above -/
+
+/-- a coalesced datagram: Initial (token `aa`, 3 protected bytes) ‖ Handshake (2 protected bytes) ‖ 1-RTT -/
+def sampleDatagram : List Nat :=
+  [0xc3, 0, 0, 0, 1, 2, 1, 2, 1, 3, 1, 0xaa, 3, 7, 8, 9] ++ [0xe0, 0, 0, 0, 1, 2, 1, 2, 0, 2, 5, 6] ++ [0x40, 1, 2, 9, 9, 9]
+
+example : BytesOk sampleDatagram ∧ KnownVersion sampleDatagram ∧ ¬ CidDeviation sampleDatagram := by
+  refine ⟨bytesOk_of_all _ (by decide), ?_, ?_⟩
+  · intro v hv
+    have : versionField sampleDatagram = some 1 := by decide
+    rw [this] at hv; simp only [Option.some.injEq] at hv; omega
+  · rintro ⟨first, V, d, s, body, hinv, hlong, _⟩
+    have : invariants sampleDatagram = some (0xc3, 1, [1, 2], [3], [1, 0xaa, 3, 7, 8, 9, 0xe0, 0, 0, 0, 1, 2, 1, 2, 0, 2, 5, 6, 0x40, 1, 2, 9, 9, 9]) := by
+      decide
+    rw [this] at hinv
+    simp only [Option.some.injEq, Prod.mk.injEq] at hinv
+    obtain ⟨_, _, hd, hs, _⟩ := hinv
+    rw [← hd, ← hs] at hlong
+    simp at hlong
+
+example : decodePacket 2 sampleDatagram =
+    .ok (.initial 1 [1, 2] [3] [0xaa] 13 16, sampleDatagram.drop 16) := by rfl
+example : abs (decodePacket 2 sampleDatagram) = parsePacket 2 sampleDatagram := by decide
+example : decodeAll 2 sampleDatagram = some ⟨[(.initial 1 [1, 2] [3] [0xaa] 13 16, 16), (.handshake 1 [1, 2] [] 10 12, 12),
+    (.short 0 [1, 2] 3 6, 6)], none⟩ := by decide
+example : Rfc.PacketHeader.parseAll 2 sampleDatagram =
+    [.initial 1 [1, 2] [3] [0xaa] 13 3, .handshake 1 [1, 2] [] 10 2, .oneRtt 0 [1, 2] 3 3] := by decide
+/-- an unknown version (draft-29) with the Initial type bits and a 21-byte DCID is accepted, so the
+    server can answer with Version Negotiation (hypotheses of `unknown_version_fields`) -/
+example : versionField ([0xc0, 0xff, 0, 0, 0x1d, 21] ++ List.replicate 21 7 ++ [0, 0, 1, 9]) = some 0xff00001d ∧
+    decodePacket 0 ([0xc0, 0xff, 0, 0, 0x1d, 21] ++ List.replicate 21 7 ++ [0, 0, 1, 9]) =
+      .ok (.initial 0xff00001d (List.replicate 21 7) [] [] 30 31, []) := ⟨by decide, by rfl⟩
+/-- a Retry and a Version Negotiation packet (hypothesis of `vn_never_has_payload_fields`: Version = 0,
+    here with the Handshake type bits) -/
+example : decodePacket 0 ([0xf5, 0, 0, 0, 1, 1, 4, 1, 5, 0xaa, 0xbb] ++ List.replicate 16 3) =
+    .ok (.retry 0xf5 1 [4] [5] [0xaa, 0xbb] (List.replicate 16 3), []) := by rfl
+example : versionField [0xe7, 0, 0, 0, 0, 1, 4, 1, 5, 0, 0, 0, 1, 0xff, 0, 0, 0x1d] = some 0 ∧
+    decodePacket 0 [0xe7, 0, 0, 0, 0, 1, 4, 1, 5, 0, 0, 0, 1, 0xff, 0, 0, 0x1d] =
+      .ok (.versionNegotiation 0xe7 [4] [5] [0, 0, 0, 1, 0xff, 0, 0, 0x1d], []) := ⟨by decide, by rfl⟩
+
 end Quic.Proofs.C05
